@@ -204,6 +204,35 @@ def alphabet():
     return ops
 
 
+def gen_boundary():
+    """Deterministic cases at the case-split boundaries of the proofs that the small alphabet cannot reach:
+    readFd's iovec choice (writable = sizeof extrabuf - 1, =, + 1) with amounts at / around the writable space and the
+    offered capacity, a failed read in both iovec configurations, makeSpace's grow-vs-compact test at equality,
+    ensureWritableBytes / hasWritten / retrieve / retrieveUntil / the pointer asserts at equality."""
+    cases = []
+    n = 0
+    for init in (65535, 65536, 65537):
+        cap = init + 65536 if init < 65536 else init
+        for amount in (0, 1, init - 1, init, init + 1, cap - 1, cap, cap + 1):
+            n += 1
+            cases.append(vlib.Case("b%d" % n, "%d 0" % init, ["RF @%d:%d" % (amount, 7 + n), "IC", "TS", "RFE 11", "RF @3:5"], "boundary-readfd"))
+    # makeSpace: writable + prependable == len + kCheapPrepend exactly (compact), one more (grow), one less
+    for k in (-1, 0, 1):
+        n += 1
+        cases.append(vlib.Case("b%d" % n, "16 0", ["A @12:3", "R 8", "EW %d" % (12 + 8 + k), "A @5:9", "TS"], "boundary-makespace"))
+        n += 1
+        cases.append(vlib.Case("b%d" % n, "16 0", ["A @12:3", "RN 8", "A @%d:4" % (12 + 8 + k), "RAS"], "boundary-makespace"))
+    # exact preconditions: equality accepted, one beyond rejected
+    for r in (0, 1, 8):
+        n += 1
+        ops = ["A @%d:6" % r] if r else []
+        cases.append(vlib.Case("b%d" % n, "8 0", ops + ["RU %d" % r, "RU 0", "RU 1", "FC %d" % 0, "FE 0", "FC 1", "FE -1", "UW 0", "UW 1",
+                                                         "HW @8:1", "HW @1:2", "PI 8 -1", "PI 1 5", "P @1:1", "KI 1", "RI 1", "RN 1"], "boundary-preconditions"))
+    n += 1
+    cases.append(vlib.Case("b%d" % n, "8 0", ["A 0d", "FC0", "A 0a", "FC0", "FC 1", "FC 2", "FC 3", "FE0", "FE 1", "FE 2", "RU 2", "FC0", "FE0"], "boundary-find"))
+    return cases
+
+
 def gen_exhaustive(depth, inits, limit=None, rng=None):
     import itertools
     al = alphabet()
@@ -400,6 +429,7 @@ def run(chk, replay=None):
         cases = load_corpus_file(replay)
     else:
         cases += load_corpus("C10")
+        cases += gen_boundary()
         if tier == "quick":
             cases += list(gen_exhaustive(2, [(16, 0), (0, 0)]))
             cases += list(gen_exhaustive(3, [(16, 8)], limit=0.015, rng=rng))
